@@ -7,6 +7,7 @@ handlers registered under exactly the keys of the real rule set (so the real nor
 the separator decision is then taken by the real handlers."""
 import importlib
 
+from .. import charclass
 from ..tables import core, printing
 from spec import fuse as F
 
@@ -224,5 +225,51 @@ def sep_obligations(run, g, configs):
             if not bad:
                 run.discharged(name, 'E3xE2/sep', 'exec', 0.0, detail=('%d boundary pairs' % n) if prod.number % 120 == 0 else None)
     run.extra['separator_decisions'] = total
+    if any(c.startswith('minify') for c in configs):
+        # (the pretty printer writes its spaces unconditionally: only the minifying handlers decide by character class)
+        boundary_class_obligation(run)
     run.trust('spec/fuse.py (token fusion per the ES5 longest-match rule)', 'LAST/FIRST token sets of the extracted grammar over-approximate '
               'the tokens that can meet at an adjacency; representatives per token class: identifiers %r, numbers %r' % (ID_REPS, NUM_REPS))
+
+
+def boundary_class_obligation(run):
+    """The O-sep obligations replay the space handlers on representative spellings of each token class.  What makes the
+    representatives sufficient on the left of a boundary: the handlers' `required_space` recognises EVERY character an identifier
+    (or keyword, or number) of the real lexer can end in, when a word character follows.  Exhaustive over all code points, from
+    the two real compiled patterns: identifier-part(c)  =>  required_space(c + 'i')."""
+    import importlib
+    import re
+    import time
+    t0 = time.time()
+    lexmod = importlib.import_module('calmjs.parse.lexers.es5')
+    core_h = importlib.import_module('calmjs.parse.handlers.core')
+    ident = re.compile(charclass.rule_pattern(lexmod.Lexer.t_ID))
+    req = core_h.required_space
+    part = charclass.from_pred(lambda cp: ident.fullmatch('a' + chr(cp)) is not None)
+    covered = charclass.from_pred(lambda cp: req.match(chr(cp) + 'i') is not None and req.match(chr(cp) + '$') is not None)
+    missing = charclass.minus(part, covered)
+    # ... and on the right of a boundary every character an identifier can START with, when a word character is in front
+    start = charclass.from_pred(lambda cp: ident.fullmatch(chr(cp)) is not None)
+    covered_r = charclass.from_pred(lambda cp: req.match('a' + chr(cp)) is not None and req.match('1' + chr(cp)) is not None)
+    missing_r = charclass.minus(start, covered_r)
+    if missing_r:
+        cp = missing_r[0][0]
+        why = ('an identifier of this lexer may start with U+%04X (%d code points in %d ranges: %s) but required_space does not ask for a '
+               'separator between a preceding word and it: %r' % (cp, charclass.size(missing_r), len(missing_r), charclass.show(missing_r), 'typeof ' + chr(cp)))
+        run.failed('class.required_space_covers_identifier_start', 'E3/charclass', 'U+%04X' % cp, dict(source='x = typeof %sb;' % chr(cp), problem=why),
+                   observed=why, required='every character an identifier can start with is a word boundary character for the space handlers',
+                   replayed=False, solver_output=why)
+    else:
+        run.discharged('class.required_space_covers_identifier_start', 'E3/charclass', 'exhaustive', (time.time() - t0) * 1000,
+                       detail='%d identifier-start code points of the real t_ID pattern, all recognised on the right of a boundary' % charclass.size(start))
+    name = 'class.required_space_covers_identifier_end'
+    if missing:
+        cp = missing[0][0]
+        why = ('an identifier of this lexer may end in U+%04X (%d code points in %d ranges: %s) but required_space does not ask for a '
+               'separator between it and a following word: %r' % (cp, charclass.size(missing), len(missing), charclass.show(missing), 'a' + chr(cp) + ' in b'))
+        run.failed(name, 'E3/charclass', 'U+%04X' % cp, dict(source='x = a%s in b;' % chr(cp), problem=why), observed=why,
+                   required='every character an identifier can end in is a word boundary character for the space handlers', replayed=False,
+                   solver_output=why)
+    else:
+        run.discharged(name, 'E3/charclass', 'exhaustive', (time.time() - t0) * 1000,
+                       detail='%d identifier-part code points of the real t_ID pattern, all recognised on the left of a boundary' % charclass.size(part))
